@@ -166,7 +166,9 @@ fn invoke(base: &Context, dir: &Path, mode: Mode, prog: &[String]) -> Invocation
     let mut inputs: Vec<(String, bool)> = Vec::new();
     let use_file = mode != Mode::Exprs;
     if use_file {
-        let content = file_lines.iter().map(|l| format!("{}\n", l)).collect::<String>();
+        // exactly the text that `-e l1 -e l2 …` is joined to (no trailing newline): a parse error at the end of
+        // the input is otherwise located on a different line in the two forms
+        let content = file_lines.join("\n");
         std::fs::write(&path, &content).expect("write program");
         inputs.push((content, true));
     }
